@@ -24,7 +24,7 @@ CLAIMED = {
         "error, not silently rounded: defect F12, fixed); the Bin whose address a getter/setter requests carries every index of the "
         "piece asked for (segment, view or axial position, TOF index) in its own slot, and a getter builds the piece it returns from "
         "the same indices; every whole-data operation of ProjData (fill, sum, extrema, norms, xapyb/sapyb, arithmetic) requests, inside its "
-        "loop over the segments, the segment of the TOF bin of an enclosing loop over all TOF bins; in the projection-data header the scale factor and the bed positions are written with max_digits10 digits (defect F35, fixed), values of list-valued keys are in the reader's list and information-losing formatting changes of the header stream are put back. Value round trips, byte order, number-type conversion and the other header values are NOT decided.",
+        "loop over the segments, the segment of the TOF bin of an enclosing loop over all TOF bins; in the projection-data header the scale factor and the bed positions are written with max_digits10 digits (defect F35, fixed), values of list-valued keys are in the reader's list and information-losing formatting changes of the header stream are put back; a segment number passed to a public get_* member of the two backing stores is tested against the segment range (directly or by a helper whose every exit has made the test) before it indexes the per-segment tables (F66, fixed); every exam-information key or helper of the image header writer also appears in the projection-data header writer (F67, fixed). Value round trips, byte order, number-type conversion and the other header values are NOT decided.",
         technique="static analysis: must-facts dataflow over clang CFG (bounds), symbolic layout algebra on the address expression, "
         "must-pass-through (flush), resolved-callee provenance",
     ),
@@ -188,7 +188,7 @@ CLAIMED = {
         "each allocated batch is saved and freed with the same window on every normal path; list-mode subsets select events by the "
         "residue class of the basic view. For the cached list-mode objective: the per-thread images the call-back accumulates into are all added to the output image after the event loop in "
         "the as-built and the OpenMP configuration (F24, fixed); the additive term cached for an event is taken from the piece whose segment AND TOF bin equal the event's (F25, fixed); a batch that "
-        "continues in the stream without rewinding restores the clock from saved state. NOT decided: event->detector decoding per scanner, time-frame arithmetic, frame additivity, "
+        "continues in the stream without rewinding restores the clock from saved state; the value added to the sinogram is known to be positive at the store (F68, fixed) and every return path of get_bin_from_event has decoded the event into the caller's bin or marked it rejected (F69, fixed); every public setter of something LmToProjData::set_up() derives state from clears the set-up flag and derived flags are assigned on every path of set_up() (F70, fixed); every set-up path of the list-mode objective that decides to cache re-makes the event cache, or keeps it only under flags that every setter of a cache input clears. NOT decided: event->detector decoding per scanner, time-frame arithmetic, frame additivity, "
         "list-mode gradient = sinogram gradient (numerical).",
         technique="static analysis: normalised loop descriptors, interval entailment from must-facts with a callee effect summary, "
         "must-pass-through pairing",
@@ -210,8 +210,8 @@ CLAIMED = {
         "x-y, symbolic parameters) the gradient summand is d/dx of the value's two visits of the voxel pair including the scale factors, "
         "vanishes for equal voxels, derivative_20/derivative_11 are its partial derivatives and derivative_11 is symmetric; in "
         "accumulate_Hessian_times_input the summand is w*(d20*v_c + d11*v_nb) off the centre, the centre element is skipped or treated by the same formula (defect F26, fixed) and every "
-        "`continue` shortcut only skips summands that vanish under its condition (H v stays linear in v); value, gradient, Hessian row, Hessian-times-input and surrogate curvature of one prior sum over the same neighbourhood (per axis the same offset range). NOT decided: "
-        "PLSPrior, positive semi-definiteness, floating-point agreement with finite differences, degenerate epsilon == 0 branches.",
+        "`continue` shortcut only skips summands that vanish under its condition (H v stays linear in v); value, gradient, Hessian row, Hessian-times-input and surrogate curvature of one prior sum over the same neighbourhood (per axis the same offset range). the interface functions that assign their result voxel by voxel do so in every iteration of the enclosing loops; every prior whose is_convex() can return true declares compute_Hessian and accumulate_Hessian_times_input (PLSPrior does not: known finding F65); for PLSPrior: the kappa factor reaches the gradient through elements read at shifted subscripts (F64, fixed) and every subscript c+1/c-1 is evaluated only where the matching bound test is known. NOT decided: "
+        "the PLS formulas themselves, positive semi-definiteness, floating-point agreement with finite differences, degenerate epsilon == 0 branches.",
         technique="static analysis: loop-bound shape rule for neighbour offsets, closed-form calculus (sympy) on extracted summands "
         "with helper functions inlined",
     ),
